@@ -71,7 +71,7 @@ func rulesC11(c *Ctx) {
 	c.WhoMayStore(ix, "C11.admit", "roothash/api/commitment.SchedulerCommitment.Commitment", []string{fnSCAdd}, "scheduler commitment store confined")
 	if fn := c.needFn("C11.admit", fnSCAdd); fn != nil {
 		var muts []ssa.Instruction
-		for _, b := range fn.Blocks {
+		for _, b := range blocksIP(fn) {
 			for _, in := range b.Instrs {
 				switch x := in.(type) {
 				case *ssa.MapUpdate:
@@ -133,7 +133,7 @@ func rulesC11(c *Ctx) {
 		// votes read only by member key
 		okKey := true
 		n := 0
-		for _, b := range fn.Blocks {
+		for _, b := range blocksIP(fn) {
 			for _, in := range b.Instrs {
 				lk, ok := in.(*ssa.Lookup)
 				if !ok || !strings.HasSuffix(vstr(lk.X), ".Votes") {
